@@ -650,9 +650,15 @@ func SimpleRing(pts []P) bool {
 func Area2(pts []P) int64 {
 	n := len(pts)
 	var ar int64
+	if n == 0 {
+		return 0
+	}
+	// relative to the first vertex: the value does not depend on where the ring lies, and the
+	// products stay small for a ring far from the origin
+	o := pts[0]
 	for i := 0; i < n; i++ {
 		p, q := pts[i], pts[(i+1)%n]
-		ar += p.X*q.Y - q.X*p.Y
+		ar += (p.X-o.X)*(q.Y-o.Y) - (q.X-o.X)*(p.Y-o.Y)
 	}
 	return ar
 }
